@@ -46,7 +46,14 @@ def _direct(meta, func):
 
 
 def correspondence(tier, seed, corpus):
-    return [S.run_stream("c04_classgen", tier, seed, on_case=_direct)]
+    st = S.run_stream("c04_classgen", tier, seed, on_case=_direct)
+    # regression case of the repaired F-C04c (reported as a violation if it ever fails again)
+    reg = S.regression_block_same_xg()
+    st["problems"] = (reg + st["problems"])[:5]
+    st["n_problems"] += len(reg)
+    st["evaluations"] += 1
+    st["distribution"]["regression_cases"] = {"F-C04c (block-smooth samples sharing x and g)": "fails" if reg else "passes"}
+    return [st]
 
 
 # ------------------------------------------------------------------ order independence on the implementation
@@ -172,23 +179,7 @@ def _skew_diag():
     return diag_missing and (value is None or value > 0.5), "class constraints: %d, max <x,Ax> = %r (antisymmetry demands 0)" % (ncons, value)
 
 
-def _block_same_xg():
-    """F-C04c: BlockSmoothConvexFunction compares the triplets with == : two samples holding the same Point objects
-    x and g but different function values are 'equal' and get no condition (f1 = f2 is lost)"""
-    from PEPit import PEP, Point, Expression
-    from PEPit.functions import BlockSmoothConvexFunction
-    pep = PEP()
-    part = pep.declare_block_partition(d=2)
-    f = pep.declare_function(BlockSmoothConvexFunction, partition=part, L=[1., 1.])
-    x, g = Point(), Point()
-    f.add_point((x, g, Expression()))
-    f.add_point((x, g, Expression()))
-    f.set_class_constraints()
-    return len(f.list_of_class_constraints) == 0, "two distinct samples (x, g, f1), (x, g, f2): %d constraints" % len(
-        f.list_of_class_constraints)
-
-
-REPLAYS = {"F-C04b": _skew_diag, "F-C04c": _block_same_xg}
+REPLAYS = {"F-C04b": _skew_diag}
 
 
 def known_findings(known):
@@ -213,6 +204,8 @@ def is_known(payload, known):
 def replay(payload):
     """True iff the stored case still fails on the current implementation (or against the model)"""
     case = payload.get("case")
+    if payload.get("kind") == "regression-F-C04c":
+        return bool(S.regression_block_same_xg())
     if payload.get("kind") == "implementation-raised" and case:
         try:
             S.rebuild(case)
